@@ -491,6 +491,9 @@ impl<R: Read, TSpec> TagIterator<R, TSpec>
                 self.read_next();
     
                 if position >= self.emission_queue.len() {
+                    // The source ran dry before the end of this master was found, so it cannot be emitted as a `Full` tag.
+                    // Its children are not emitted on their own either (just like when an error is found among them).
+                    self.emission_queue.truncate(pre_queue_len);
                     self.emission_queue.push_back(Err(TagIteratorError::UnexpectedEOF{ tag_start, tag_id: Some(tag_id), tag_size: None, partial_data: None }));
                     return;
                 }
